@@ -322,7 +322,7 @@ func needsHoist(e Expr) bool {
 		return true
 	case *IfE:
 		return needsHoist(e.C) || needsHoist(e.T) || needsHoist(e.E)
-	case *Mark:
+	case *Mark, *Block:
 		return true
 	case *Bin:
 		return needsHoist(e.L) || needsHoist(e.R)
@@ -414,6 +414,12 @@ func (p *printer) expr(e Expr) string {
 			panic("mini: a wide Mark needs a literal operand")
 		}
 		return "do\n" + indentLines(fmt.Sprintf("println(%q)\n%s", e.Tag, p.expr(e.E))) + "\nend"
+	case *Block:
+		q := &printer{opts: p.opts, tmp: p.tmp, sites: p.sites, ind: 1}
+		q.stmts(e.Body)
+		q.line(q.expr(e.Res))
+		p.tmp, p.sites = q.tmp, q.sites
+		return "do\n" + q.b.String() + "end"
 	case *ListLit:
 		var as []string
 		for _, a := range e.Elems {
